@@ -120,6 +120,21 @@ def parseProgram (on : Bool) (s : String) : Option (List Item) :=
   if s.isEmpty then some []
   else (sequenceOpt ((s.splitOn " | ").map (parseItem on))).map List.flatten
 
+/-- an active Pipeline block has a property without a value (`x:0`): the parser rejects the file -/
+def hasGarbage (on : Bool) (s : String) : Bool :=
+  (s.splitOn " | ").any fun item =>
+    match (item.splitOn " ").filter (· ≠ "") with
+    | "P" :: _ :: flags :: props => activeFlags on flags && props.any (fun p => (p.splitOn "=x:").length > 1)
+    | _ => false
+
+/-- the file declares the structured buffer whose element layouts differ between HLSL and Metal
+    (observed: `check_layout` does not look inside an *array* of such buffers) -/
+def hasLayoutTrap (s : String) : Bool :=
+  (s.splitOn " | ").any fun item =>
+    match (item.splitOn " ").filter (· ≠ "") with
+    | "R" :: _ :: kind :: len :: _ => kind == "TrapBuffer" && len == "-"
+    | _ => false
+
 def showTgs : Option (Nat × Nat × Nat) → String
   | none => "-"
   | some (x, y, z) => s!"{x},{y},{z}"
@@ -190,15 +205,24 @@ def handle (op : String) (args : List String) : String :=
       | .panicMultiple => "panic:multiple"
     | _, _ => "bad-request"
   | "C17.typer", [on, prog] =>
+    if hasGarbage (on == "on") prog then "err:parse"
+    else
     match parseProgram (on == "on") prog with
     | some items => showTyper (typeCheck items)
     | none => "unsupported"
   | "C17.wide", [tgt, mode, opts, prog, fails, bare] =>
+    let optl := opts.splitOn ","
+    -- compile() checks its arguments first, then runs the front end (the parser before the type checker, layout
+    -- validation after it)
+    if optl.contains "ba" && tgt != "vk" && tgt != "vkba" then "err:args"
+    else if hasGarbage (opts.startsWith "on") prog then "err:front"
+    else
     match parseMode mode, parseProgram (opts.startsWith "on") prog with
     | some m, some items =>
       match typeCheck items with
       | .error (_, e) => if e.kind == .unsupported then "unsupported" else "err:front"
       | .ok s =>
+        if optl.contains "vl" && hasLayoutTrap prog then "err:front" else
         let msl := tgt == "msl"
         let failing := if fails == "-" then [] else fails.splitOn ","
         let ps : List (Pipeline IrPipe) := s.pipes.map fun p => { name := p.name, payload := p }
